@@ -1743,6 +1743,34 @@ class Interp:
         extra = {}
         caps = []
         back = []
+        nested_n = [0]
+
+        def deep_caps(x, tag, depth=0):
+            # a captured value that itself holds references into the caller's frame (a captured closure with its own
+            # captures, a struct of references): those references get places in the closure's frame too (read-only)
+            if depth > 5 or not (isinstance(x, Agg) and type(x) is Agg):
+                return x
+            out = []
+            changed = False
+            for y in x.items:
+                if isinstance(y, Ref) and (y.root in fr.store or (isinstance(y.root, int) and ('*', y.root) in fr.store)):
+                    val_ = self._ref_value(fr, y)
+                    for _ in range(8):
+                        if not isinstance(val_, Ref):
+                            break
+                        val_ = self._ref_value(fr, val_)
+                    nested_n[0] += 1
+                    key_ = ('upn', tag, len(fr.store), nested_n[0])
+                    extra[key_] = deep_caps(val_, tag, depth + 1)
+                    out.append(Ref(key_, []))
+                    changed = True
+                elif isinstance(y, Agg) and type(y) is Agg:
+                    z = deep_caps(y, tag, depth + 1)
+                    changed = changed or (z is not y)
+                    out.append(z)
+                else:
+                    out.append(y)
+            return Agg(out, x.kind) if changed else x
         for k, v in enumerate(captures.items):
             if isinstance(v, Ref):
                 # a captured reference, possibly to a reference (`&mut &mut T` when a `&mut` parameter is captured by
@@ -1760,11 +1788,11 @@ class Interp:
                 keys = [('up', k, len(fr.store), lvl) for lvl in range(len(chain))]
                 for lvl in range(len(chain) - 1):
                     extra[keys[lvl]] = Ref(keys[lvl + 1], [])
-                extra[keys[-1]] = val
+                extra[keys[-1]] = deep_caps(val, ('cap', k))
                 caps.append(Ref(keys[0], []))
                 back.append((keys[-1], chain[-1]))
             else:
-                caps.append(v)
+                caps.append(deep_caps(v, ('cap', k)))
         caps = Agg(caps, captures.kind)
         first = ('byref', caps) if cbody.local_ty(1).startswith('&') else caps
 
@@ -1803,6 +1831,10 @@ class Interp:
         if len(results) != 1:
             raise NotDerivable('closure %s does not evaluate to a single value on a modelled item (%d paths)' % (path, len(results)), where)
         pth2, ret, outs = results[0]
+        cp_ = getattr(self, '_cur_path', None)
+        if cp_ is not None and pth2.events:
+            # what the closure did (recorded by transfer functions) belongs to the path that called it
+            cp_.events.extend(pth2.events)
         for k_ in self.shared_keys:
             if k_ in outs:
                 fr.store[k_] = outs[k_]
